@@ -69,6 +69,20 @@ CLAIMED["C10"] = dict(
     note=("Covers what the workloads reach inside the simulated process; main.rs (loopback listener), HarperOpen and the static dependency graph are outside. "
           "Assumes dependencies reach the kernel through libc symbols (interposed) rather than raw syscalls."),
     technique=TECH + "; closed-world invariant over libc seams in every simulated session")
+CLAIMED["C08"] = dict(
+    engine="lsp-sim",
+    category="exploration",
+    text=("The property quantifies over inputs only; it is claimed because it is a statement about two parties with different coordinate systems "
+          "(char indices vs LSP line/UTF-16 column), observable only by running the protocol - the simulator contributes the second party and the "
+          "session workload here, not interleavings (sequential policy). After every text change in documents of all language ids, with astral and "
+          "combining characters, tabs, CRLF, lints on first/last line and missing trailing newlines, the editor model requests code actions at every "
+          "character position inside every published range. Oracle: ranges equal reference lint spans under the editor's own UTF-16 arithmetic; every "
+          "reference lint containing the position is offered with exactly that lint in its HarperIgnoreLint command; for each suggestion a returned "
+          "TextEdit with exactly the lint's range, applied as an editor applies it, equals an independent splice of the suggestion into the char span."),
+    design_ref="DESIGN.md §3 C08",
+    note=("Reference lints come from the same harper-core; independent are the position arithmetic, the span->range->edit path and the range->span lookup. "
+          "Positions inside surrogate pairs are not probed."),
+    technique=TECH + "; lsp-sim sequential sessions: editor model with independent UTF-16 arithmetic probes every position of every diagnostic")
 CLAIMED["C19"]["engine"] = "io-sim"
 CLAIMED["C19"]["text"] += (" A further batch drives the real harper-ls save_stats through lsp-sim: HarperRecordLint commands with server-provided payloads, "
                             "several server lifetimes appending to one statistics file, short writes and EINTR injected at the libc write seam.")
@@ -90,7 +104,6 @@ NA = {
 # properties whose check is designed (DESIGN.md) but not registered yet
 PENDING = {
   "C05": "designed (DESIGN.md §3 C05, engine cache-sim) but the check is not built yet; not claimed until it is",
-  "C08": "designed (DESIGN.md §3 C08, engine lsp-sim) but the check is not built yet; not claimed until it is",
   "C14": "designed (DESIGN.md §3 C14, engine api-sim) but the check is not built yet; not claimed until it is",
   "C16": "designed (DESIGN.md §3 C16, engine api-sim) but the check is not built yet; not claimed until it is",
 }
